@@ -263,7 +263,7 @@ func driveGraph(rec *Recorder, env *Env, r *rand.Rand, monotone bool) {
 			}
 		}
 		ft := types[r.Intn(len(types))]
-		c := mkCurve(configuration.CurveConfig{ID: id, Function: &configuration.FunctionCurveConfig{Type: ft, Curves: members}})
+		c := mkCurve(configuration.CurveConfig{ID: id, Function: &configuration.FunctionCurveConfig{Type: ft, Curves: append([]string(nil), members...)}})
 		nodes = append(nodes, node{id, Ev{"id": id, "t": "fn", "sensor": "", "mn": 0, "mx": 0, "steps": [][2]int{}, "fn": ft, "members": members}, c, depth})
 	}
 	var cfgs []Ev
